@@ -122,6 +122,19 @@ class MinMaxLengthType(DiagCodedType):
                 f"(Is: {data_length} bytes.)", EncodeError)
             data_length = self.max_length
 
+        if self.termination != Termination.END_OF_PDU:
+            # the value must not contain the termination sequence at
+            # a position where the decoder looks for it
+            termination_sequence = self.__termination_sequence()
+            pos = raw_value.find(termination_sequence, self.min_length)
+            while pos >= 0 and pos % len(termination_sequence) != 0:
+                pos = raw_value.find(termination_sequence, pos + 1)
+            if pos >= 0:
+                odxraise(
+                    f"The value {internal_value!r} contains the termination "
+                    f"sequence 0x{termination_sequence.hex()} of its MinMaxLengthType",
+                    EncodeError)
+
         encode_state.emplace_atomic_value(
             internal_value=raw_value,
             used_mask=None,
